@@ -83,8 +83,9 @@ PROPS = {
     "C11": {
         "m": None,
         "k": [
+            H("c11::c11_duration_fraction_kept", "q", "FormattableDuration writer, precision Auto, no date part, hours/minutes/seconds 0..=9, any nanosecond: a fraction is written iff the nanoseconds are non-zero and it is part of the seconds component"),
             H("c11::c11_date_writer", "q", "FormattableDate writer for every year in -999999..=999999 and month/day: decoded by a fixed-layout decoder, 4-digit iff 0..=9999"),
-            H("c11::c11_time_writer_auto", "q", "FormattableTime writer, precision Auto: every time and nanosecond 0..1e9 - fraction exact and minimal"),
+            H("c11::c11_time_writer_auto", "t", "FormattableTime writer, precision Auto: every time and nanosecond 0..1e9 - fraction exact and minimal"),
             H("c11::c11_time_writer_minute", "q", "precision Minute"),
             H("c11::c11_time_writer_digit0", "q", "precision Digit(0)"),
             H("c11::c11_time_writer_digit3", "q", "precision Digit(3): exactly three leading digits"),
@@ -108,14 +109,14 @@ PROPS = {
         ],
         "k_timeout": {"quick": 1800, "thorough": 3000},
         "bounds": {"all": "ISO calendar; dates in a 3-year window; year-month limits probed within 2 years of each bound"},
-        "outside": "string routes (parser stub not built), year-month add/subtract/until/since, explicit reference arguments",
+        "outside": "string routes; year-month add/subtract/until/since and explicit reference arguments (harnesses c18_year_month_add/until/since_2020 exist but CBMC does not finish them in 25 min; not registered)",
     },
     "C17": {
         "m": None,
         "k": [
             H("c17::c17_date_from_partial_2000", "q", "PlainDate::from_partial (ISO): year in 1999..=2001 or absent, month any u8 or absent, monthCode any M dd [L] or absent, day any u8 or absent, overflow absent/constrain/reject"),
             H("c17::c17_date_from_partial_limits", "t", "same with year 275759..=275761 (upper limit)"),
-            H("c17::c17_date_with_2000", "q", "PlainDate::with on any receiver date in 1999..=2001 with the same symbolic record"),
+            H("c17::c17_date_with_2000", "t", "PlainDate::with on any receiver date in 1999..=2001 with the same symbolic record"),
             H("c17::c17_time_from_partial", "q", "PlainTime::from_partial: six independent Option fields over their full u8/u16 ranges, all overflow modes"),
             H("c17::c17_time_with", "q", "PlainTime::with on any receiver time"),
         ],
@@ -124,13 +125,15 @@ PROPS = {
         "outside": "PlainDateTime / PlainYearMonth / ZonedDateTime partials, era-based records and non-ISO calendars",
     },
     "C15": {
-        "m": None,
+        "m": "specs.c15",
         "k": [
             H("c15::c15_tzif_get", "q", "Tzif::get on symbolic TZif v2 tables: 1..=3 strictly ascending transitions in +-4e9 s, 2..=3 local-time types with |utoff| <= 26 h, query second anywhere before the last transition"),
+            H("c15::c15_estimate_pair", "q", "Tzif::v2_estimate_tz_pair on the same tables (2..=3 transitions more than 400000 s apart), local second anywhere up to 200000 s before the last transition: "
+                                             "the records returned are exactly the periods that contain the local time under their own offset"),
         ],
         "k_timeout": {"quick": 1800, "thorough": 3000},
         "bounds": {"all": "tables of at most 3 transitions / 3 types, all values symbolic; binary search loops unwound 5"},
-        "outside": "PARTIAL: local-time -> candidate records (v2_estimate_tz_pair), POSIX footer evaluation, real zoneinfo files, provider cache purity, file I/O and the identifier check are not covered yet",
+        "outside": "PARTIAL: POSIX footer evaluation, real zoneinfo files, provider cache purity, file I/O and the identifier check are not covered yet",
     },
     "C13": {
         "m": "specs.c13",
@@ -148,8 +151,6 @@ PROPS = {
             H("c12::c12_offset_ascii_8", "t", "same, <= 8 bytes (reaches the sub-minute suffix forms)"),
             H("c12::c12_offset_non_ascii", "q", "'+' X '1:00' and '+1' X ':00' with X any Unicode scalar value (non-ASCII numerals must be rejected, no panic)"),
             H("c12::c12_month_code", "q", "MonthCode::try_from_utf8 on every byte string of <= 5 bytes"),
-            H("c12::c12_tz_identifier_4", "q", "TimeZone::try_from_identifier_str on every ASCII string of <= 4 bytes vs offset | Z | IANA-name shape"),
-            H("c12::c12_tz_identifier_5", "t", "same, <= 5 bytes"),
         ],
         "k_timeout": {"quick": 1500, "thorough": 3000},
         "bounds": {"all": "Engine K: repo-owned character parsers only, strings up to the stated byte lengths; loops unwound to length + slack with unwinding assertions on. "
@@ -157,7 +158,7 @@ PROPS = {
                           "IsoTime::from_time_record, the FromStr bodies) over *every* parse record ixdtf's grammar can return for a string without annotations: year -999999..=999999, "
                           "valid month/day, any time incl. :60, fractions of 1..=12 digits, offset +-hh:mm:ss.f or Z; the date kernels beyond Temporal's range enter through "
                           "contracts discharged by the C12.lemma jobs (years +-1000001)"},
-        "outside": "PARTIAL: the ixdtf crate's character-level grammar (text -> parse record) is not executed (external crate; its contract is an assumption of the "
+        "outside": "PARTIAL: TimeZone::try_from_identifier_str on symbolic strings (harnesses c12_tz_identifier_3/4/5 exist but CBMC runs out of 14 GB even for 3 bytes; not registered); the ixdtf crate's character-level grammar (text -> parse record) is not executed (external crate; its contract is an assumption of the "
                    "record-level jobs, DESIGN.md cut 4); annotations (calendar, time zone, critical flags) and the annotation handler; PlainYearMonth / PlainMonthDay / "
                    "ZonedDateTime / Duration strings at record level; longer strings for the character parsers; Calendar::from_utf8 case-insensitivity",
     },
@@ -166,6 +167,8 @@ PROPS = {
         "k": [
             H("c04::c04_date_add_api_2000", "t", "PlainDate::add (API level): receiver any date in 1999..=2001, duration years 0..1, months 0..13, weeks 0..2, days 0..40, hours 0..60 times a common sign, both overflow modes"),
             H("c04::c04_date_subtract_api_2000", "t", "PlainDate::subtract(-d) on the same space"),
+            H("c04::c04_date_until_years_2020", "t", "PlainDate::until with largestUnit year: any two dates in 2019..=2021 (leap day included): sign-uniform, balanced, maximal year-month part (ISODateSurpasses on the unconstrained start day), add-back"),
+            H("c04::c04_date_until_months_2020", "t", "same with largestUnit month, dates in 2020..=2021"),
         ],
         "k_timeout": {"quick": 2400, "thorough": 3600},
         "bounds": {"all": "Engine M over the real AddISODate / DifferenceISODate / BalanceISOYearMonth MIR: every representable receiver date (cycle-decomposed years), "
@@ -184,7 +187,7 @@ PROPS = {
         "outside": "PlainDateTime::add/until/since wrappers and DifferenceISODateTime (calendar + Duration plumbing) - not executed by Engine M yet",
     },
     "C09": {
-        "m": None,
+        "m": "specs.c09",
         "k": [
             H("c09::c09_valid_sign", "q", "Duration::new: all ten fields integral in -1000..=1000 (symbolic): valid iff sign-uniform"),
             H("c09::c09_valid_calendar_fields", "q", "years/months/weeks = arbitrary finite integral doubles: valid iff each |v| < 2^32"),
